@@ -63,7 +63,9 @@ let () =
          let at = Array.of_list (List.map int_of_string (split ',' advs)) in
          let adv g = let i = int_of_n g in z_of_int (if i < Array.length at then at.(i) else 0) in
          let l0 = List.map (fun x -> let g = n_of_int (int_of_string x) in mkslot g (adv g) Z0) (List.filter (fun x -> x <> "") (split ',' input)) in
-         let out = run_passes_adj adv (nat_of_int (int_of_string nsub)) passes l0 in
+         (match run_passes_adj adv (nat_of_int (int_of_string nsub)) passes l0 with
+          | None -> Printf.printf "%s R DIED\n" id
+          | Some out ->
          let (fin, ps) = positions out in
          let tbl = Hashtbl.create 16 in
          List.iter (fun (i, (x, y)) -> Hashtbl.replace tbl (int_of_n i) (int_of_z x, int_of_z y)) ps;
@@ -72,7 +74,7 @@ let () =
            let (x, y) = (try Hashtbl.find tbl i with Not_found -> (0, 0)) in
            let rec nat_to_int = function O -> 0 | S n -> 1 + nat_to_int n in
            Printf.sprintf "%d,%d,%d,%d,%d,%s" (int_of_n s.s_gid) (int_of_z s.s_adv) x y (match s.s_par with Some p -> nat_to_int p | None -> -1)
-             (String.concat "/" (List.map (fun u -> string_of_int (int_of_z u)) s.s_user))) (idx 0 out)))
+             (String.concat "/" (List.map (fun u -> string_of_int (int_of_z u)) s.s_user))) (idx 0 out))))
        with Failure m -> Printf.printf "%s R UNPARSABLE %s\n" id m | Not_found -> Printf.printf "%s R UNPARSABLE\n" id)
      | id :: _ -> Printf.printf "%s R BAD\n" id
      | [] -> print_endline "? R BAD")
